@@ -500,6 +500,18 @@ func c12(c *core.Ctx) {
 		f := c.Fn(pkgBeacon + ".beacon." + n)
 		info := f.Info()
 		early, lowered := false, false
+		// the remaining budget: the local defined as <cap maximum parameter> - <current count>
+		sigB := f.Obj.Type().(*types.Signature)
+		capMaxParam := sigB.Params().At(sigB.Params().Len() - 1)
+		var budgetObj types.Object
+		ast.Inspect(f.Decl.Body, func(x ast.Node) bool {
+			if as, ok := x.(*ast.AssignStmt); ok && len(as.Lhs) == 1 && len(as.Rhs) == 1 {
+				if be, isB := core.Unparen(as.Rhs[0]).(*ast.BinaryExpr); isB && be.Op == token.SUB && core.ObjOf(info, be.X) == capMaxParam {
+					budgetObj = core.ObjOf(info, as.Lhs[0])
+				}
+			}
+			return true
+		})
 		ast.Inspect(f.Decl.Body, func(x ast.Node) bool {
 			is, ok := x.(*ast.IfStmt)
 			if !ok {
@@ -509,7 +521,7 @@ func c12(c *core.Ctx) {
 			if !ok {
 				return true
 			}
-			if id, ok := core.Unparen(be.X).(*ast.Ident); ok && id.Name == "budget" {
+			if budgetObj != nil && core.ObjOf(info, be.X) == budgetObj {
 				if be.Op == token.LEQ && isConst(info, be.Y, 0) {
 					if len(is.Body.List) > 0 {
 						if _, isRet := is.Body.List[len(is.Body.List)-1].(*ast.ReturnStmt); isRet {
@@ -519,7 +531,7 @@ func c12(c *core.Ctx) {
 				}
 				if be.Op == token.LSS {
 					for _, st := range is.Body.List {
-						if as, isAs := st.(*ast.AssignStmt); isAs && core.ExprStr(as.Lhs[0]) == core.ExprStr(be.Y) && core.ExprStr(as.Rhs[0]) == "budget" {
+						if as, isAs := st.(*ast.AssignStmt); isAs && core.ObjOf(info, as.Lhs[0]) != nil && core.ObjOf(info, as.Lhs[0]) == core.ObjOf(info, be.Y) && core.ObjOf(info, as.Rhs[0]) == budgetObj {
 							lowered = true
 						}
 					}
